@@ -148,8 +148,9 @@ def cases():
                     for kd, o in reversed(list(zip(kinds, occs))):
                         inner = f'<xs:{kd}{OCC[o][0]}>{inner}</xs:{kd}>'
                     # the type's own content is a plain sequence holding a first member and the nested groups
-                    xml = HEAD + f'<xs:complexType name="T"><xs:sequence><xs:element name="first" type="xs:string"/>{inner}</xs:sequence><xs:attribute name="req" type="xs:string" use="required"/><xs:attribute name="opt" type="xs:string"/></xs:complexType></xs:schema>'
-                    out.append((f'o{ko}', xml, f'first!T,m{flag},z{zflag},@req!T,@opt!O'))
+                    xml = (HEAD + f'<xs:complexType name="T"><xs:sequence><xs:element name="first" type="xs:string"/>{inner}</xs:sequence><xs:attribute name="req" type="xs:string" use="required"/><xs:attribute name="opt" type="xs:string"/>'
+                           '<xs:attribute name="dflt" type="xs:string" default="x"/><xs:attribute name="fx" type="xs:int" fixed="1"/><xs:attribute name="eo" type="xs:string" use="optional"/></xs:complexType></xs:schema>')
+                    out.append((f'o{ko}', xml, f'first!T,m{flag},z{zflag},@req!T,@opt!O,@dflt!O,@fx!O,@eo!O'))
                     ko += 1
     # derived types without a sequence of their own
     for nattr in (0, 1, 3):
